@@ -118,6 +118,17 @@ pub fn common_labels(case: &Case, r: &RunResult, v: &mut Verdict) {
     if rs.len() > 1 {
         v.label("runs>1(eager stage)");
     }
+    if let Mode::Sched(s) = &case.mode {
+        if s.drop_yield > 0 {
+            v.label("destructors are yield points");
+        }
+        if s.src_yield > 0 && case.source.is_instrumented_iter() {
+            v.label("source iterator next() is a (revocable) yield point");
+        }
+    }
+    if r.sched.revoked > 0 {
+        v.label("a revocable park was revoked (the running thread waited for something the parked thread holds)");
+    }
     let busy = busy_workers(&r.log, 0);
     v.label(match busy {
         0 => "busy_workers:0",
@@ -291,6 +302,8 @@ pub fn tiny_cases(terms: &[Term], chains: &[&[StageKind]], inputs: &[&[u32]]) ->
                                 tape: vec![],
                                 weights: vec![1; 18],
                                 yield_every: 1,
+                            drop_yield: 0,
+                            src_yield: 0,
                             }),
                             faults: vec![],
                         });
